@@ -265,15 +265,18 @@ fn signed_builder_scenarios(rep: &Report) {
         match r {
             Err(p) => rep.violation(&format!("C08/{tag}/panic"), case, p),
             Ok((g, sig, added)) => {
+                // whatever the builder decided, the block must be the accepted bundles (one spend each)
+                // under the builder's aggregate signature; the constructed pattern is accepted / declined
+                // after serialisation / accepted, a different pattern is recorded, not judged (C10's subject)
+                let want = added.iter().filter(|a| **a).count();
                 if added != vec![true, false, true] {
-                    rep.machinery_error(&format!("{tag}: the late-rejection scenario did not play out as constructed: {added:?}"));
-                    continue;
+                    rep.outcome(&format!("signed-builder/late-rejection-pattern-not-reproduced {added:?} (block still checked)"));
                 }
                 let gf = if interned { flags | ConsensusFlags::INTERNED_GENERATOR } else { flags };
                 match run_gen2(&g, &[], u64::MAX / 4, gf, &sig, &constants) {
-                    Ok(o) if o.validated_signature && o.summary.spends.len() == 2 => rep.outcome("signed-builder/block-validates-with-signature"),
-                    Ok(o) => rep.violation(&format!("C08/{tag}/signed-block-wrong-content"), case, format!("{} spends, validated_signature {}", o.summary.spends.len(), o.validated_signature)),
-                    Err(e) => rep.violation(&format!("C08/{tag}/mempool-accepts-block-rejects-with-signature"), case, format!("bundles X and Z were accepted by the mempool path and by the builder (Y was declined after serialisation), but the block does not validate under the builder's signature: {e:?}")),
+                    Ok(o) if o.validated_signature && o.summary.spends.len() == want => rep.outcome("signed-builder/block-validates-with-signature"),
+                    Ok(o) => rep.violation(&format!("C08/{tag}/signed-block-wrong-content"), case, format!("{} spends (the builder accepted {want} one-spend bundles: {added:?}), validated_signature {}", o.summary.spends.len(), o.validated_signature)),
+                    Err(e) => rep.violation(&format!("C08/{tag}/mempool-accepts-block-rejects-with-signature"), case, format!("the bundles were accepted by the mempool path and the builder answered {added:?} (constructed: Y declined after serialisation), but the block does not validate under the builder's signature: {e:?}")),
                 }
             }
         }
